@@ -38,7 +38,12 @@ def _tuples(e):
 
 
 def load(run=None):
-    rc, out = vf.sh([vf.PY, os.path.join(vf.ROOT, "gen/trxd_proto_dump.py"), vf.TRX, vf.ROOT], check=True)
+    rc, out = vf.sh([vf.PY, os.path.join(vf.ROOT, "gen/trxd_proto_dump.py"), vf.TRX, vf.ROOT])
+    if rc != 0:
+        # the live definitions left the definition language (or cannot be imported): the translation tie is broken;
+        # this is not an internal error of the check
+        raise vf.HarnessError("translator gen/trxd_proto.py: the live PDU definitions cannot be translated: %s"
+                              % " | ".join(out.strip().split("\n")[-3:])[-600:])
     d = _dec(json.loads(out.strip().split("\n")[-1]))
     for k in d["classes"]:
         _tuples(d["classes"][k])
